@@ -5,7 +5,7 @@ import ast
 import copy
 
 from ..core import (AnalysisError, FuncInfo, Project, attr_chain, const_int, const_str, enclosing, expand, guards_of,
-                    local_defs, term, unparse)
+                    local_defs, term, unparse, with_helpers)
 from ..intdec import Specializer
 from . import c04, c19
 
@@ -21,27 +21,38 @@ def rule_R1(ctx, prj):
     if fc not in fi.params():
         raise AnalysisError("lex has no filter_comments parameter")
     ft = prj.func(f"{SRC}:filter_tokens")
+    from ..absint import BoundFunc, MiniInterp, PyRaise, Sym, Unknown
     for val in (True, False):
-        sp = Specializer(None, valuation=lambda n, val=val: val if isinstance(n, ast.Name) and n.id == fc and isinstance(n.ctx, ast.Load) else None)
-        tree = sp.visit(copy.deepcopy(fi.node))
-        rets = [s for s in tree.body if isinstance(s, ast.Return)]
-        if len(rets) != 1 or any(isinstance(s, ast.If) and any(isinstance(x, ast.Return) for x in ast.walk(s)) for s in tree.body):
-            raise AnalysisError(f"lex: return path for filter_comments={val} does not fold to one return")
-        e = rets[0].value
         key = f"lex/filter_comments={val}"
-        if not (isinstance(e, ast.Call) and attr_chain(e.func) == "filter_tokens"):
-            ctx.viol("R1", key, fi.site(), f"with filter_comments={val} lex returns {unparse(e)[:70]} without passing through filter_tokens: whitespace tokens are kept")
-            continue
-        params = ft.params()
-        bound = dict(zip(params, e.args))
-        for k in e.keywords:
-            if k.arg:
-                bound[k.arg] = k.value
+        calls = []
+        marker = Sym("filtered")
 
-        def flag(p):
-            v = bound.get(p, ft.param_default(p))
-            return v.value if isinstance(v, ast.Constant) else unparse(v)
-        kw, kc, ko = flag("keep_whitespace"), flag("keep_comments"), flag("keep_others")
+        def hook(it, kind, f, args, kwargs, node, cur):
+            if kind != "call":
+                return NotImplemented
+            if isinstance(f, BoundFunc) and f.fi.qual == ft.qual:
+                bound = dict(zip(ft.params(), args))
+                bound.update(kwargs)
+                for p in ft.params():
+                    if p not in bound and ft.param_default(p) is not None:
+                        bound[p] = it.ev(ft.param_default(p), {}, ft)
+                calls.append(bound)
+                return marker
+            if isinstance(f, BoundFunc) and f.fi.qual.endswith(":get_newline_indices"):
+                return []
+            if isinstance(f, tuple) and f and f[0] == "method" and f[2] in ("get_tokens_unprocessed", "get_tokens"):
+                return []
+            return NotImplemented
+        params = fi.params()
+        args = [Sym(p, _open=True) for p in params if p != fc]
+        try:
+            r = MiniInterp(prj, hook).call(fi, args, {fc: val})
+        except (Unknown, PyRaise) as e:
+            raise AnalysisError(f"lex: cannot evaluate the return path for filter_comments={val} ({e})")
+        if r is not marker or len(calls) != 1:
+            ctx.viol("R1", key, fi.site(), f"with filter_comments={val} lex returns without passing (exactly once) through filter_tokens: whitespace tokens are kept")
+            continue
+        kw, kc, ko = calls[0].get("keep_whitespace"), calls[0].get("keep_comments"), calls[0].get("keep_others")
         if kw is not False:
             ctx.viol("R1", key + "/whitespace", fi.site(), f"lex keeps whitespace tokens (keep_whitespace={kw})")
         elif kc is not (not val):
@@ -79,11 +90,11 @@ def rule_R2(ctx, prj):
         ctx.viol("R2", "lex/reorders", fi.site(bad[0]), f"lex reorders tokens: {unparse(bad[0])[:60]}")
     else:
         ctx.ok("R2", fi.site(), "lex: tokens appended in lexer order, no sort/reverse/insert")
-    ctors = [c for c in fi.calls() if attr_chain(c.func) == "Token"]
-    for c in ctors:
-        loops = enclosing(fi, c, (ast.For, ast.ListComp, ast.GeneratorExp))
+    ctors = [(f, c) for f in with_helpers(prj, fi) for c in f.calls() if attr_chain(c.func) == "Token"]
+    for f, c in ctors:
+        loops = enclosing(f, c, (ast.For, ast.ListComp, ast.GeneratorExp))
         if not loops:
-            ctx.viol("R2", "lex/token-outside-loop", fi.site(c), "a Token is created outside the iteration over the lexer's tuples")
+            ctx.viol("R2", "lex/token-outside-loop", f.site(c), "a Token is created outside the iteration over the lexer's tuples")
     if not ctors:
         raise AnalysisError("lex creates no Token")
 
@@ -263,6 +274,82 @@ def rule_R5(ctx, prj):
         ctx.ok("R5", fi.site(), "newline table searched in an unrecognised way (not judged)")
 
 
+def lex_positions(prj, newlines: list, offsets: list):
+    """(line, column) lex gives to tokens at `offsets` of a text whose newline characters are at `newlines`:
+    lex evaluated with the lexer's tuples and the newline table supplied, filter_tokens bypassed"""
+    from ..absint import BoundFunc, MiniInterp, PyRaise, Sym, Unknown
+    fi = prj.func(f"{LU}:lex")
+
+    def hook(it, kind, f, args, kwargs, node, cur):
+        if kind != "call":
+            return NotImplemented
+        if isinstance(f, BoundFunc) and f.fi.qual.endswith(":filter_tokens"):
+            a = args[0]
+            return list(a.rest()) if hasattr(a, "rest") else a
+        if isinstance(f, BoundFunc) and f.fi.qual.endswith(":get_newline_indices"):
+            return list(newlines)
+        if isinstance(f, tuple) and f and f[0] == "method" and f[2] in ("get_tokens_unprocessed",):
+            return [(o, Sym("Name"), f"t{o}") for o in offsets]
+        return NotImplemented
+    it = MiniInterp(prj, hook)
+    args = []
+    for p in fi.params():
+        if p == "filter_comments":
+            break
+        args.append(Sym(p, _open=True))
+    r = it.call(fi, args, {})
+    r = list(r.rest()) if hasattr(r, "rest") else r
+    out = []
+    for t in r:
+        loc = t.fields.get("location") if isinstance(t, Sym) else None
+        if not isinstance(loc, Sym):
+            raise Unknown("token without location")
+        out.append((t.fields.get("value"), loc.fields.get("line"), loc.fields.get("column")))
+    return out
+
+
+def spec_position(newlines, o):
+    before = [n for n in newlines if n < o]
+    return len(before) + 1, o - (before[-1] + 1 if before else 0) + 1
+
+
+def rule_R35_evaluated(ctx, prj):
+    """R3 + R5 by evaluation: the position of a token is a piecewise linear function of its offset with breakpoints at
+    the newline offsets; two interior points per piece and every breakpoint determine it"""
+    from ..absint import PyRaise, Unknown
+    fi = prj.func(f"{LU}:lex")
+    scenarios = [
+        ("no newline", [], [0, 1, 7]),
+        ("two newlines", [5, 9], [0, 3, 4, 5, 6, 7, 8, 9, 10, 11, 15]),
+        ("adjacent newlines", [3, 4], [0, 2, 3, 4, 5, 6]),
+        ("newline first", [0], [0, 1, 2]),
+    ]
+    bad3 = bad5 = None
+    n = 0
+    for name, nls, offs in scenarios:
+        got = lex_positions(prj, nls, offs)
+        if len(got) != len(offs):
+            raise Unknown(f"{len(got)} tokens for {len(offs)} lexer tuples")
+        for o, (val, line, col) in zip(offs, got):
+            n += 1
+            want = spec_position(nls, o)
+            if (line, col) != want:
+                msg = (f"text with newlines at offsets {nls}: the token at offset {o} is placed at line {line}, column {col}; "
+                       f"required line {want[0]}, column {want[1]}")
+                if o in nls:
+                    bad5 = bad5 or (name, msg + " (a token that starts at a newline's offset belongs to the line that newline ends)")
+                else:
+                    bad3 = bad3 or (name, msg + " (line = newlines before it + 1, column = offset - offset after the preceding newline + 1)")
+    if bad3:
+        ctx.viol("R3", "lex/column" if bad3[0] != "no newline" else "lex/branches-disagree", fi.site(), bad3[1])
+    else:
+        ctx.ok("R3", fi.site(), f"lex: position formula agrees with the specification on {n} (newline table, offset) points: interior and boundary of every piece, with and without newlines")
+    if bad5:
+        ctx.viol("R5", "lex/newline-boundary", fi.site(), bad5[1])
+    else:
+        ctx.ok("R5", fi.site(), "lex: a token at a newline's offset stays on the line that newline ends")
+
+
 def run(ctx, prj: Project):
     ctx.explanation = (
         "Decided clauses of C16: what lex keeps (both return paths folded on filter_comments, plus the filter's abstract "
@@ -276,6 +363,20 @@ def run(ctx, prj: Project):
     ctx.trust("pygments' get_tokens_unprocessed yields increasing, non-overlapping offsets and treats only '\\n' as line end", "CPython ast")
     rule_R1(ctx, prj)
     rule_R2(ctx, prj)
-    rule_R3(ctx, prj)
+    from ..absint import PyRaise, Unknown
+    try:
+        ctx.rule("R3", "position formula: a token at offset o of a line that starts at offset s gets column o - s + 1, s is the "
+                       "offset after the preceding newline (its index + 1), the line number is the count of newlines before it + 1; "
+                       "and the special case for texts without a newline is the general formula with s = 0, count = 0 "
+                       "(lex evaluated abstractly on newline tables / offsets covering every piece and breakpoint)", floor=1)
+        ctx.rule("R5", "a token that starts exactly at a newline's offset belongs to the line that newline ends", floor=1)
+        rule_R35_evaluated(ctx, prj)
+        evaluated = True
+    except (Unknown, PyRaise) as e:
+        ctx.info(f"lex not evaluable ({e}); falling back to the syntactic position rules")
+        evaluated = False
+    if not evaluated:
+        rule_R3(ctx, prj)
     rule_R4(ctx, prj)
-    rule_R5(ctx, prj)
+    if not evaluated:
+        rule_R5(ctx, prj)
